@@ -16,6 +16,7 @@ ASSUME = [
     "served before (hostname file present from the start: events before the reply are then attributable and count)",
     "FAILED events that report a failed descriptor fetch (a directory no upload was announced to, REASON=NOT_FOUND), for either "
     "service, are interleaved; they decide nothing",
+    "in two of five executions the caller passes a progress callback (its calls are recorded; the outcome must not depend on it)",
     "authenticated ephemeral services (which match uploads by a permanent id derived from an RSA key) are not replayed",
     "every fourth creation is started right after an earlier service's creation completed on the same connection, while the SETEVENTS "
     "that gives up HS_DESC for it is still unanswered (it is answered at the first step); in another quarter the application has an "
@@ -90,11 +91,12 @@ def run(pid, tier, seed):
                            dict(a="Failed", s="me", d="d2"), dict(a="Reply")],
                           [dict(a="Upload", s="me", d="d1"), dict(a="Upload", s="other", d="d2"), dict(a="Failed", s="me", d="d1"),
                            dict(a="Reply"), dict(a="Uploaded", s="other", d="d2")]):
-                    traces.append(ou.replay(s, mode, kind, prelude=pre, he=he))
+                    traces.append(ou.replay(s, mode, kind, prelude=pre, he=he, progress=(len(traces) % 2 == 1)))
     for i, (s, mode, he) in enumerate(jobs):
         # every fourth creation starts right after another one on the same connection, whose giving up of HS_DESC is unanswered
         traces.append(ou.replay(s, mode, "fs" if (he or i % 3 == 0) else "eph",
-                                prelude=(True if i % 4 == 3 else "listener" if i % 4 == 1 else False), he=he))
+                                prelude=(True if i % 4 == 3 else "listener" if i % 4 == 1 else False), he=he,
+                                progress=(i % 5 in (1, 2))))        # the caller follows the progress through a callback
         if any(e["a"] == "Uploaded" for e in s) or sum(1 for e in s if e["a"] == "Failed") >= 2:
             seen.add(common.digest([s, mode]))
     rep.cov["evaluations"] = len(traces)
@@ -105,14 +107,14 @@ def run(pid, tier, seed):
                        "hash; non-trivial = contains a confirmed upload or >= 2 failures")
     allknown = dict((f["id"], f) for f in common.open_findings(pid))
     ok = pipeline.validate(rep, pid, "OnionUp", "OnionUpTrace", "OnionUpTrace.cfg", traces, chunk=300, known=allknown,
-                           payload=lambda t: dict(script=pipeline.strip_obs(t), mode=t["mode"], kind=t["kind"], prelude=t["prelude"], he=t["he"]))
+                           payload=lambda t: dict(script=pipeline.strip_obs(t), mode=t["mode"], kind=t["kind"], prelude=t["prelude"], he=t["he"], progress=t["progress"]))
     rep.cov["samples"] = [dict(mode=t["mode"], kind=t["kind"], steps=t["steps"][:10]) for t in ok[:2]]
     return rep.finish()
 
 
 def replay(pid, path):
     p = json.load(open(path))
-    t = ou.replay(p["script"], p["mode"], p["kind"], p.get("prelude", False), p.get("he", False))
+    t = ou.replay(p["script"], p["mode"], p["kind"], p.get("prelude", False), p.get("he", False), p.get("progress", False))
     res, r = tlc.validate_traces("OnionUpTrace", "OnionUpTrace.cfg", [t])
     x = res[0]
     known = set(f["id"] for f in common.open_findings(pid))
